@@ -25,7 +25,9 @@ def denoms(rng, n, tricky=True):
     out = set()
     base = [b"aaa", b"bbb", b"uaura", b"uusd", b"abc", b"abcd", b"abca", b"bcd", b"a", b"ab", b"b", b"ibc/27394FB092D2ECCD",
             # denoms are case-sensitive; upper-case letters sort before lower-case ones
-            b"ibc/27394FC0", b"ibc/F082B65C", b"ibc/f082b65c", b"ibc/27394fb092d2eccd", b"IBC/AB", b"Uaura", b"UAURA", b"uAura", b"A", b"Ab", b"AB", b"B"]
+            b"ibc/27394FC0", b"ibc/F082B65C", b"ibc/f082b65c", b"ibc/27394fb092d2eccd", b"IBC/AB", b"Uaura", b"UAURA", b"uAura", b"A", b"Ab", b"AB", b"B",
+            # the longest denoms a chain accepts (128 bytes) and one byte less
+            b"factory/aura1" + b"v" * 115, b"factory/aura1" + b"v" * 114, b"f" + b"0" * 127]
     for d in base:
         out.add(d)
     while len(out) < n:
